@@ -46,8 +46,10 @@ def expected(Config, d):
                 exp[k] = v.rstrip("/")
             else:
                 exp[k] = [v] if isinstance(v, str) else v
-        elif k in ("log", "ssl_enabled", "cert_reqs"):
-            continue  # read-only / write-only properties: not settings of this enumeration
+        elif k == "cert_reqs":
+            exp["verify_mode"] = v  # write-only alias of verify_mode (the setter converts to VerifyMode)
+        elif k in ("log", "ssl_enabled"):
+            continue  # read-only properties: not settings
         else:
             exp[k] = v
     return exp
@@ -77,6 +79,9 @@ def cases(Config, tier, seed):
         out += [{k: "127.0.0.1:1"}, {k: ["a:1", "b:2"]}]
     out += [{"root_path": "/api/"}, {"root_path": "/"}, {"root_path": ""}, {"root_path": "/a//"}]
     out += [{"logger_class": QuietLogger}]
+    # settings that cannot be read on a fresh Config: application_path is only annotated on the
+    # class (no default), cert_reqs is a write-only alias of verify_mode
+    out += [{"application_path": "module:app"}, {"application_path": "pkg.mod:create_app()", "workers": 2}, {"cert_reqs": 2}, {"cert_reqs": 0, "workers": 3}]
     # names that are not settings are ignored by no source differently from another
     out += [{"not_a_setting": 1}, {"_private": 2, "workers": 3}, {"__dunder__": 1, "workers": 2}]
     keys = sorted(st) + list(_PROPS)
@@ -132,6 +137,9 @@ def run(tier="quick", seed=0, only=None, obligation="C19.loaders"):
     import hypercorn.__main__ as M
     from hypercorn.config import Config
 
+    import warnings
+
+    warnings.simplefilter("ignore")  # the deprecated cert_reqs alias warns on purpose
     tmp = tempfile.mkdtemp(prefix="hc-loaders-", dir="/var/tmp")
     sys.path.insert(0, tmp)
     violations = []
@@ -194,9 +202,9 @@ def run(tier="quick", seed=0, only=None, obligation="C19.loaders"):
                         return isinstance(g, type) and g.__name__ == "QuietLogger"
                     return g is v or g == v
 
-                bad = {k: (got.get(k, "<unset>"), v) for k, v in want.items() if (k in vars(Config) or k in _PROPS) and not same(got.get(k, "<unset>"), v)}
+                bad = {k: (got.get(k, "<unset>"), v) for k, v in want.items() if (k in vars(Config) or k in _PROPS or k in ("application_path", "verify_mode")) and not same(got.get(k, "<unset>"), v)}
                 # every other attribute: as in a default configuration (nothing else is touched)
-                extra = {k: v for k, v in got.items() if k not in want and (k not in base or base[k] != v) and (k in vars(Config) or k in _PROPS)}
+                extra = {k: v for k, v in got.items() if k not in want and (k not in base or base[k] != v) and (k in vars(Config) or k in _PROPS or k in ("application_path", "verify_mode"))}
                 if bad or extra:
                     violations.append({"obligation": obligation, "input": f"{name}: {d!r}", "expected": repr({k: v for k, v in want.items() if k in bad} or "nothing else set"),
                                        "observed": repr({k: b[0] for k, b in bad.items()} or extra)})
